@@ -851,11 +851,25 @@ func (e *evaluator) globalScalars(pkg *ssa.Package) *evObj {
 }
 
 func (e *evaluator) lookup(x *ssa.Lookup, m, k evVal) evVal {
+	// a key that is not there: the zero value of the element type
+	zero := evVal{k: evNil}
+	if mt, ok := x.X.Type().Underlying().(*types.Map); ok {
+		if bt, ok := mt.Elem().Underlying().(*types.Basic); ok {
+			switch {
+			case bt.Info()&types.IsInteger != 0:
+				zero = evInt(0, mt.Elem())
+			case bt.Info()&types.IsBoolean != 0:
+				zero = evBool(false)
+			case bt.Info()&types.IsString != 0:
+				zero = evVal{k: evConst, c: constant.MakeString(""), t: mt.Elem()}
+			}
+		}
+	}
 	miss := func() evVal {
 		if x.CommaOk {
-			return evVal{k: evTuple, tup: []evVal{{k: evNil}, evBool(false)}}
+			return evVal{k: evTuple, tup: []evVal{zero, evBool(false)}}
 		}
-		return evVal{k: evNil}
+		return zero
 	}
 	if m.k != evObject || k.k != evConst {
 		if x.CommaOk {
